@@ -38,6 +38,8 @@ CONSTANTS
   PhraseSets,     \* values used by SetExcluded; a phrase is <<word, sentInLowerCase>>
   InitShared,     \* set of initial `shared` values
   FriendUsers,    \* users whose friendship may change
+  InitSess,       \* initial values of `sess` (FALSE: started, not logged in yet)
+  MaxSess,        \* bound on logins + losses of the session
   MaxCfg, MaxReq, MaxEnv,   \* bounds on configuration changes / peer requests / peer+user transfer actions
   UploadSlots,
   \* ---- deviation switches: TRUE = repaired design, FALSE = what the pinned code does ----
@@ -48,6 +50,8 @@ CONSTANTS
   ScanDirCycles,  \* fixes/C08-3: scan_directory_files requests a shares cycle (TRUE)
   AlwaysAccumulate, \* FALSE in the design models; TRUE in the trace spec, which does not see the cycles and
                   \*        lets `okSince` run from one quiescent point to the next
+  TickReportsAlways, \* the user-management job reports a changed friends list whether there is a session or
+                  \*        not (TRUE, the code); FALSE: only with a session, the change is remembered silently
   FlagsTakenAtStart, \* _management_job copies and clears the request flags before the work of the cycle
                   \*        (TRUE, the code) or clears them when the cycle is over (FALSE): a request made
                   \*        while the cycle is suspended is then lost
@@ -113,13 +117,14 @@ VARIABLES
   cpc,         \* the management job: "idle" or "eval" (inside a cycle, between its start and manage_transfers)
   pend,        \* aborts the running cycle has decided on and is still waiting for: set of <<upload, reason>>
   okSince,     \* <<user, file>> pairs entitled at some moment since the running cycle began
-  nCfg, nReq, nEnv
+  sess,        \* the client is logged in (a session exists); it runs and answers peers without one too
+  nSess, nCfg, nReq, nEnv
 
 cfgvars == <<shared, mode, dusers, friends, blocked, excluded>>
 idxvars == <<holder, owner>>
 usrvars == <<friends, blocked, ctxFriends, ctxBlocked, winFriends, winUnblk>>
 vars == <<shared, mode, dusers, holder, owner, friends, blocked, ctxFriends, ctxBlocked, winFriends, winUnblk,
-          excluded, up, flag, obs, cpc, pend, okSince, nCfg, nReq, nEnv>>
+          excluded, up, flag, obs, cpc, pend, okSince, sess, nSess, nCfg, nReq, nEnv>>
 
 NoObs == [k |-> "none"]
 NoUp == [st |-> "NONE", reason |-> "none", ua |-> FALSE]
@@ -196,9 +201,10 @@ Init ==
   /\ flag = FALSE
   /\ obs = NoObs
   /\ cpc = "idle" /\ pend = {} /\ okSince = {}
+  /\ sess \in InitSess /\ nSess = 0
   /\ nCfg = 0 /\ nReq = 0 /\ nEnv = 0
 
-Cfg == nCfg < MaxCfg /\ nCfg' = nCfg + 1 /\ obs' = NoObs /\ UNCHANGED <<up, nReq, nEnv, cpc, pend>> /\ OkAcc
+Cfg == nCfg < MaxCfg /\ nCfg' = nCfg + 1 /\ obs' = NoObs /\ UNCHANGED <<up, nReq, nEnv, cpc, pend, sess, nSess>> /\ OkAcc
        /\ MayInterleave
 SameIndex == UNCHANGED <<holder, owner>>
 
@@ -306,16 +312,28 @@ UserMgmtTick ==
   /\ ctxFriends # friends \/ ctxBlocked # blocked
   /\ ctxFriends' = friends /\ ctxBlocked' = blocked
   /\ winFriends' = friends /\ winUnblk' = {u \in Users : "up" \notin blocked[u]}
-  /\ flag' = TRUE
+  /\ flag' = (flag \/ ctxBlocked # blocked \/ TickReportsAlways \/ sess)
   /\ obs' = NoObs
-  /\ UNCHANGED <<shared, mode, dusers, holder, owner, friends, blocked, excluded, up, cpc, pend, nCfg, nReq, nEnv>>
+  /\ UNCHANGED <<shared, mode, dusers, holder, owner, friends, blocked, excluded, up, cpc, pend, sess, nSess, nCfg, nReq, nEnv>>
   /\ OkAcc /\ MayInterleave
+
+\* The session comes and goes (login; loss of the server connection).  The managers keep running: peers
+\* are answered, the settings are watched and the uploads managed without a session as with one.
+SessionStep(on) ==
+  /\ sess # on /\ sess' = on
+  /\ nSess < MaxSess /\ nSess' = nSess + 1
+  /\ obs' = NoObs
+  /\ UNCHANGED <<shared, mode, dusers, holder, owner, friends, blocked, ctxFriends, ctxBlocked, winFriends, winUnblk,
+                 excluded, up, flag, cpc, pend, nCfg, nReq, nEnv>>
+  /\ OkAcc /\ MayInterleave
+Login == SessionStep(TRUE)
+ServerLoss == SessionStep(FALSE)
 
 ----------------------------------------------------------------------------
 \* Replies seen by the peers
 
 Observe == UNCHANGED <<shared, mode, dusers, holder, owner, friends, blocked, ctxFriends, ctxBlocked,
-                       winFriends, winUnblk, excluded, up, flag, cpc, pend, nCfg, nReq, nEnv>>
+                       winFriends, winUnblk, excluded, up, flag, cpc, pend, sess, nSess, nCfg, nReq, nEnv>>
            /\ OkAcc /\ MayInterleave
 
 Indexed == {f \in Files : holder[f] # None}
@@ -324,7 +342,7 @@ NoReply == [replied |-> FALSE, normal |-> {}, locked |-> {}]
 \* search/manager.py:185-243 + shares query(): block gate, excluded phrases, visible/locked split
 SearchReply(u, q) ==
   LET found == {f \in Indexed : q \in HasW(f) /\ ~CodeExcluded(f)} IN
-  IF "search" \in blocked[u] \/ found = {} THEN NoReply
+  IF ~sess \/ "search" \in blocked[u] \/ found = {} THEN NoReply      \* (searches are answered with a session only)
   ELSE [replied |-> TRUE, normal |-> {f \in found : ~CodeLocked(u, f)}, locked |-> {f \in found : CodeLocked(u, f)}]
 
 \* peer.py:62-80 + create_shares_reply: decided per shared directory, lists that directory's items
@@ -355,7 +373,7 @@ CanFail(s) == s \in {"QUEUED", "INITIALIZING", "UPLOADING", "PAUSED"}
 
 Req == nReq < MaxReq /\ nReq' = nReq + 1
       /\ UNCHANGED <<shared, mode, dusers, holder, owner, friends, blocked, ctxFriends, ctxBlocked, winFriends, winUnblk, excluded,
-                     flag, cpc, pend, nCfg, nEnv>>
+                     flag, cpc, pend, sess, nSess, nCfg, nEnv>>
       /\ OkAcc /\ MayInterleave
 
 Refusal(kind, u, p, why) == [k |-> kind, u |-> u, p |-> p, allowed |-> FALSE, why |-> why]
@@ -439,7 +457,7 @@ CycleBegin ==
   /\ okSince' = EntPairs
   /\ obs' = NoObs
   /\ UNCHANGED <<shared, mode, dusers, holder, owner, friends, blocked, ctxFriends, ctxBlocked, winFriends, winUnblk, excluded,
-                 nCfg, nReq, nEnv>>
+                 sess, nSess, nCfg, nReq, nEnv>>
 
 \* the task of an upload the cycle aborts has ended: the transition is made, if it still can be
 AbortDone(x) ==
@@ -449,7 +467,7 @@ AbortDone(x) ==
        THEN Put(x[1], "ABORTED", x[2]) ELSE UNCHANGED up
   /\ obs' = NoObs /\ OkAcc
   /\ UNCHANGED <<shared, mode, dusers, holder, owner, friends, blocked, ctxFriends, ctxBlocked, winFriends, winUnblk, excluded,
-                 flag, cpc, nCfg, nReq, nEnv>>
+                 flag, cpc, sess, nSess, nCfg, nReq, nEnv>>
 
 \* (all the waiting aborts at once or one after the other makes no difference to what can interleave)
 AbortsDone == \E x \in pend : AbortDone(x)
@@ -471,14 +489,14 @@ CycleEnd ==
   /\ okSince' = {}
   /\ obs' = NoObs
   /\ UNCHANGED <<shared, mode, dusers, holder, owner, friends, blocked, ctxFriends, ctxBlocked, winFriends, winUnblk, excluded,
-                 pend, nCfg, nReq, nEnv>>
+                 pend, sess, nSess, nCfg, nReq, nEnv>>
 
 ----------------------------------------------------------------------------
 \* The peer's and the user's part in a running upload
 
 Env == nEnv < MaxEnv /\ nEnv' = nEnv + 1
       /\ UNCHANGED <<shared, mode, dusers, holder, owner, friends, blocked, ctxFriends, ctxBlocked, winFriends, winUnblk, excluded,
-                     flag, cpc, pend, nCfg, nReq>>
+                     flag, cpc, pend, sess, nSess, nCfg, nReq>>
       /\ OkAcc /\ MayInterleave
 
 \* the peer accepts our PeerTransferRequest, a file connection is made, the file is written
@@ -536,6 +554,7 @@ Change ==
   \/ \E u \in Users, fl \in BlockSets \cup {{}} : SetBlock(u, fl)
   \/ \E ps \in PhraseSets : SetExcluded(ps)
   \/ UserMgmtTick
+  \/ Login \/ ServerLoss
   \/ \E t \in T : QueueRequest(t[1], t[2]) \/ TransferRequest(t[1], t[2])
   \/ CycleBegin \/ CycleEnd
   \/ AbortsDone
@@ -563,7 +582,7 @@ TypeOK ==
   /\ friends \cup ctxFriends \subseteq winFriends /\ winUnblk \subseteq Users
   /\ \A u \in Users : blocked[u] \subseteq Flags
   /\ \A t \in T : up[t].st \in UpStates /\ up[t].reason \in Reasons
-  /\ flag \in BOOLEAN /\ cpc \in {"idle", "eval"}
+  /\ flag \in BOOLEAN /\ sess \in BOOLEAN /\ cpc \in {"idle", "eval"}
   /\ \A x \in pend : x[1] \in T /\ x[2] \in Reasons
   /\ cpc = "idle" => pend = {}
 
@@ -632,6 +651,7 @@ Converged(t) ==
   up[t].st \in Unfinished =>
     /\ ~EntitledFile(UserOf(t), FileOf(t)) => up[t].st = "ABORTED"
     /\ up[t].st = "ABORTED" => ReasonTrue(t)
-Quiet == ~flag /\ cpc = "idle" /\ ctxFriends = friends /\ ctxBlocked = blocked
+\* (judged while logged in: a change made without a session counts from the next login on)
+Quiet == ~flag /\ cpc = "idle" /\ ctxFriends = friends /\ ctxBlocked = blocked /\ sess
 Convergence == Quiet => \A t \in T : Converged(t)
 =============================================================================
